@@ -17,6 +17,31 @@ const SIGMA: [&str; 6] = ["a", "b", ".", "/", "*", "^"];
 // case sweep: the same modes with upper-case letters in the rule text (ABP patterns are
 // case-insensitive; the parser lower-cases the text, the hostname and the regex separately)
 const SIGMA_CASE: [&str; 6] = ["a", "A", "B", "/", "*", "^"];
+// metacharacter sweep: characters that mean something to a regular expression (or to the rule
+// syntax elsewhere) are plain literals inside a pattern, also when the pattern is compiled to a regex
+const METAS: [&str; 11] = ["|", "$", "+", "?", "(", ")", "[", "]", "{", "}", "="];
+const MODES_META: [(&str, &str); 4] = [("", ""), ("", "|"), ("|https://a.b/", ""), ("||a.b/", "")];
+
+fn build_meta_urls(m: &str) -> Vec<U> {
+    let mut out = vec![];
+    let sig = ["a", "/", m];
+    for i in 0..count_strings_upto(3, 4) {
+        let path = nth_string(i, &sig);
+        for host in ["a.b", "b.a.b"] {
+            let url = format!("https://{}/{}", host, path);
+            let req = match Request::new(&url, "", "script") {
+                Ok(r) => r,
+                Err(_) => continue,
+            };
+            if req.url != url || req.hostname != host {
+                continue;
+            }
+            out.push(U { req, host_start: 8, host_end: 8 + host.len() });
+        }
+    }
+    out
+}
+
 const MODES: [(&str, &str); 8] = [("", ""), ("|", ""), ("", "|"), ("|", "|"), ("||", ""), ("||", "|"), ("|https://a.b", ""), ("|http://b.a/", "|")];
 
 struct U {
@@ -150,8 +175,15 @@ fn quirky(rule: &str) -> bool {
 }
 
 fn check_pattern(rule: &str, urls: &[U], l: &mut Local, relations: bool) {
+    check_pattern_sfx(rule, "", urls, l, relations)
+}
+
+/// `suffix` is an option part (`$script`) that the real parser needs to see when the pattern text
+/// itself contains a `$`; the reference is given the pattern text only.
+fn check_pattern_sfx(rule: &str, suffix: &str, urls: &[U], l: &mut Local, relations: bool) {
     let p = pat::parse(rule);
-    let f = match catch(|| NetworkFilter::parse(rule, true, Default::default())) {
+    let full = format!("{}{}", rule, suffix);
+    let f = match catch(|| NetworkFilter::parse(&full, true, Default::default())) {
         Err(loc) => {
             l.mismatch(Mismatch {
                 sig: format!("c02.parse-panic@{}", loc),
@@ -243,7 +275,7 @@ fn check_pattern(rule: &str, urls: &[U], l: &mut Local, relations: bool) {
                         l.mismatch(Mismatch {
                             sig,
                             what: format!("rule {:?} url {:?}: reference says {}, matcher says {}", rule, u.req.url, exp, got),
-                            case: json!({"kind":"pattern","rule":rule,"url":u.req.url,"host_start":u.host_start,"host_end":u.host_end}),
+                            case: json!({"kind":"pattern","rule":rule,"suffix":suffix,"url":u.req.url,"host_start":u.host_start,"host_end":u.host_end}),
                             size: (rule.len() * 100 + u.req.url.len()) as u64,
                         });
                     }
@@ -477,7 +509,7 @@ fn replay(case: &Value, l: &mut Local) {
     match case["kind"].as_str().unwrap_or("pattern") {
         "regex" => check_full_regex(rule, us, l),
         "star" => check_star_relations(rule, us, l),
-        _ => check_pattern(rule, us, l, true),
+        _ => check_pattern_sfx(rule, case["suffix"].as_str().unwrap_or(""), us, l, true),
     }
     let _ = real_match;
 }
@@ -510,6 +542,26 @@ fn check(ctx: &Ctx) -> i32 {
         let rule = format!("{}{}{}", MODES[mode].0, body, MODES[mode].1);
         check_star_relations(&rule, &urls, l);
     });
+    let meta_len: u32 = ctx.tier.pick(5, 6);
+    ctx.bound("metachar_sweep_body_max_len", meta_len);
+    ctx.bound("metachar_sweep_characters", json!(METAS));
+    let meta_urls: Vec<Vec<U>> = METAS.iter().map(|m| build_meta_urls(m)).collect();
+    ctx.bound("metachar_sweep_urls_per_character", json!(meta_urls.iter().map(|v| v.len()).collect::<Vec<_>>()));
+    let meta_bodies = count_strings_upto(5, meta_len) - 1;
+    let per_meta = meta_bodies * MODES_META.len() as u64;
+    ctx.par_range("metacharacters as literals", per_meta * METAS.len() as u64, 64, |i, l| {
+        let mi = (i / per_meta) as usize;
+        let j = i % per_meta;
+        let m = METAS[mi];
+        let mode = MODES_META[(j % MODES_META.len() as u64) as usize];
+        let body = nth_string(j / MODES_META.len() as u64 + 1, &["a", "/", "*", "^", m]);
+        // the anchors are the modes' business: a body that starts or ends with `|` would be one
+        if !body.contains(m) || body.starts_with('|') || body.ends_with('|') {
+            return;
+        }
+        let rule = format!("{}{}{}", mode.0, body, mode.1);
+        check_pattern_sfx(&rule, if m == "$" { "$script" } else { "" }, &meta_urls[mi], l, false);
+    });
     let case_len: u32 = ctx.tier.pick(5, 6);
     ctx.bound("case_sweep_body_max_len", case_len);
     ctx.bound("case_sweep_alphabet", json!(SIGMA_CASE));
@@ -531,7 +583,7 @@ fn check(ctx: &Ctx) -> i32 {
     });
     ctx.finish(
         "model_checking",
-        "every pattern body of length 1..=n over {a,b,.,/,*,^} x 8 anchor modes (none, |p, p|, |p|, ||p, ||p|, |https://a.b+p, |http://b.a/+p|), each against every URL of the universe (2 schemes x 7 hosts with repeated/prefix/suffix labels x optional userinfo x all paths of length <=3 over {a,b,/,.} + separators + upper-case paths); the same modes over {a,A,B,/,*,^} up to a shorter length (case-insensitivity of the rule text); a case is non-trivial when the real matcher reports a match; states = rules parsed, transitions = (rule,url) evaluations, traces_validated = evaluations compared with the reference or a relation",
+        "every pattern body of length 1..=n over {a,b,.,/,*,^} x 8 anchor modes (none, |p, p|, |p|, ||p, ||p|, |https://a.b+p, |http://b.a/+p|), each against every URL of the universe (2 schemes x 7 hosts with repeated/prefix/suffix labels x optional userinfo x all paths of length <=3 over {a,b,/,.} + separators + upper-case paths); the same modes over {a,A,B,/,*,^} up to a shorter length (case-insensitivity of the rule text); every body over {a,/,*,^,M} containing M for each M of 11 regex / rule-syntax metacharacters in 4 modes against URLs whose path ranges over {a,/,M} (M is a literal, also on the compiled-regex path); a case is non-trivial when the real matcher reports a match; states = rules parsed, transitions = (rule,url) evaluations, traces_validated = evaluations compared with the reference or a relation",
         &[
             "regex crate is the oracle for full-regex rules",
             "URLs are ASCII, lower-case host, non-empty path (the property's domain)",
